@@ -28,6 +28,11 @@ fn main() {
     report::quiet_panics();
     csverif::engine::sched::install_pause_hook();
     let id = args[0].to_uppercase();
+    if id == "C13" && args[1] == "stress" {
+        let (n, both) = csverif::props::c13::stress_local(20000);
+        println!("in-memory update_shard_metadata, 2 free-running threads, same expected generation: both succeeded in {both} of {n} rounds");
+        std::process::exit(0);
+    }
     let code = if args[1] == "--replay" {
         let path = args.get(2).expect("replay file");
         let body = std::fs::read_to_string(path).expect("read replay file");
